@@ -246,6 +246,10 @@ def observe(ctx: fw.Ctx, names):
                              f"{op} {path!r} on {doc!r}: the quoted name {s!r} is one attribute, distinct from the nested "
                              f"path {s}; got {out!r}" + ("" if want is KeyError else f", expected tree {want!r}"))
 
+    # the command line hands the path to the library unchanged: a sample of names (non-ASCII in several
+    # normalisation forms, spaces, dots, quotes) through `python -m nix_manipulator set|rm`
+    cli_paths(ctx)
+
     # spelling equivalence (both directions), on a sample of names Nix can spell two ways
     spell = [n for n in names if n and is_nix_ident(n)][: 400 if ctx.quick else 4000]
     for s in spell:
@@ -267,6 +271,40 @@ def observe(ctx: fw.Ctx, names):
             except Exception as exc:  # noqa: BLE001
                 ctx.fail({"clause": "spelling", "file": "bare" if file_tok == s else "quoted"},
                          {"doc": doc, "path": seg}, f"raised {type(exc).__name__}: {exc}")
+
+
+def cli_paths(ctx: fw.Ctx):
+    import os
+    import subprocess
+    import sys
+
+    from nix_manipulator import parse
+    from nix_manipulator.cli import manipulations as M
+
+    env = dict(os.environ)
+    if os.environ.get("NIMA_REPO"):
+        env["PYTHONPATH"] = os.environ["NIMA_REPO"]
+    sample = ["e\u0301", "\u00e9", "\u212b", "\u00c5", "\u2126x", "a b", "a.b", "q\"r", "ﬁ", "한", "\u1112\u1161\u11ab", " lead", "tab\tx"]
+    if not ctx.quick:
+        sample += [n for n in ["\u0041\u030a", "\ufb01x", "ｱ", "x\u00a0y", "İ", "ǆ"]]
+    for nm in sample:
+        seg = render_seg(nm)
+        doc = "{ " + seg + " = 1; z = 0; }\n"
+        for cmd, args in (("set", ["set", seg, "2"]), ("rm", ["rm", seg]), ("set-new", ["set", "n." + seg, "3"])):
+            base = doc if cmd != "set-new" else "{ z = 0; }\n"
+            try:
+                want = M.set_value(parse(base), args[1], args[2]) if args[0] == "set" else M.remove_value(parse(base), args[1])
+            except Exception as exc:  # noqa: BLE001
+                want = ("raises", type(exc).__name__)
+            r = subprocess.run([sys.executable, "-m", "nix_manipulator", *args], input=base.encode("utf-8"), capture_output=True,
+                               timeout=60, env=env)
+            got = r.stdout.decode("utf-8", "replace") if r.returncode == 0 else ("raises", "exit-" + str(r.returncode))
+            ctx.case({"cli": args, "doc": base}, True)
+            ctx.count("cli_paths")
+            if isinstance(want, str) != isinstance(got, str) or (isinstance(want, str) and got.rstrip("\n") != want.rstrip("\n")):
+                ctx.fail({"clause": "cli-path", "cmd": cmd}, {"doc": base, "args": args, "stdout": got if isinstance(got, str) else None},
+                         f"nima {' '.join(args)!r} on {base!r}: command line gives {got!r}, the library {want!r} "
+                         f"(name {nm!r}, code points {[hex(ord(c)) for c in nm]})")
 
 
 def is_nix_ident(n: str) -> bool:
